@@ -284,8 +284,11 @@ class Body:
                     continue
                 rv = stt["rv"]
                 cb = const_bool(rv["op"]) if rv.get("k") == "use" else None
+                src = op_place(rv["op"]) if rv.get("k") == "use" else None
                 if cb is not None:
                     facts[l[0]] = bool(cb)
+                elif src is not None and not src[1] and src[0] in facts:
+                    facts[l[0]] = facts[src[0]]  # the flag handed on (a spliced helper's bool result)
                 else:
                     facts.pop(l[0], None)
             t = self.term(b)
